@@ -196,8 +196,11 @@ func TO2(ctx context.Context, transport Transport, to1d *cose.Sign1[protocol.To1
 	serviceInfoReader, serviceInfoWriter := serviceinfo.NewChunkOutPipe(0)
 	defer func() { _ = serviceInfoWriter.Close() }()
 
-	// Send devmod KVs in initial ServiceInfo
-	go c.Devmod.Write(ctx, c.DeviceModules, sendMTU, serviceInfoWriter)
+	// Send devmod KVs in initial ServiceInfo. The chunks of the module list
+	// must each fit into one message, which has 5 bytes less than the
+	// negotiated size for KVs (see exchangeServiceInfo, which also rejects
+	// sizes of 5 or less).
+	go c.Devmod.Write(ctx, c.DeviceModules, max(sendMTU, 5)-5, serviceInfoWriter)
 
 	// Loop, sending and receiving service info until done
 	if err := exchangeServiceInfo(ctx, transport, proveDeviceNonce, setupDeviceNonce, sendMTU, serviceInfoReader, sess, &c); err != nil {
